@@ -70,7 +70,7 @@ Inductive step_shape (cfg : config) (s : state) : tid -> state -> Prop :=
     step_shape cfg s (T l) (set_thr (start_target s d) l (mkThread (goto_start cfg l (S i)) r sn))
 | SPublish l r sn : thr s l = Some (mkThread PPublish r sn) ->
     step_shape cfg s (T l) (set_thr (set_waiting s l (Some (deps cfg l))) l
-                                    (mkThread (walk_goto cfg l (walk_next l [] [deps cfg l])) r sn))
+                                    (mkThread (walk_goto cfg l (walk_next l [] [deps cfg l])) r []))
 | SWalk l r sn d fr : thr s l = Some (mkThread (PWalk d fr) r sn) ->
     step_shape cfg s (T l)
       (set_thr s l (mkThread (walk_goto cfg l (walk_next l (d :: sn)
